@@ -751,6 +751,56 @@ MUTANTS = {
           "      flags.append(\"use_real_sigmoid=\" + "
           "str(int(self.use_real_sigmoid)))\n"
           "    return \"stochastic_binary(\"")]),
+    # --- round 16 ---------------------------------------------------------
+    # the registry resolves names case-insensitively by scanning the container
+    "m129_registry_lookup_by_prefix": dict(expect=["C09"], edits=[
+        E("qkeras/registry.py",
+          "    return self._container[name]\n",
+          "    for key, item in self._container.items():\n"
+          "      if name.startswith(key):\n"
+          "        return item\n"
+          "    raise KeyError(name)\n")]),
+    # operation counts remember the first kernel they saw for a layer name
+    "m130_kernel_shape_remembered_by_layer_name": dict(expect=["C19"],
+                                                       edits=[
+        E("qkeras/qtools/qtools_util.py",
+          "def get_operation_count(layer, input_shape):\n",
+          "_SEEN_KERNELS = {}\n\n\n"
+          "def _first_weight(layer):\n"
+          "  if layer.name not in _SEEN_KERNELS:\n"
+          "    _SEEN_KERNELS[layer.name] = layer.get_weights()[0]\n"
+          "  return _SEEN_KERNELS[layer.name]\n\n\n"
+          "def get_operation_count(layer, input_shape):\n"),
+        E("qkeras/qtools/qtools_util.py",
+          "    weight = layer.get_weights()[0]\n\n"
+          "    kernel_h, kernel_w, _, _ = weight.shape\n",
+          "    weight = _first_weight(layer)\n\n"
+          "    kernel_h, kernel_w, _, _ = weight.shape\n")]),
+    # quantized_relu_po2 decides straight-through versus weighted mixing in
+    # its constructor
+    "m131_relu_po2_mixing_chosen_at_construction": dict(expect=["C06"],
+                                                        edits=[
+        E("qkeras/quantizers.py",
+          "    if self.use_ste:\n"
+          "      return x + tf.stop_gradient(self.qnoise_factor * (-x + xq))\n"
+          "    else:\n"
+          "      return (1 - self.qnoise_factor) * x + tf.stop_gradient(\n"
+          "          self.qnoise_factor * xq)\n\n"
+          "  def max(self):\n"
+          "    \"\"\"Get the maximum value that quantized_relu_po2 can "
+          "represent.\"\"\"\n",
+          "    if self._ste_at_construction:\n"
+          "      return x + tf.stop_gradient(self.qnoise_factor * (-x + xq))\n"
+          "    else:\n"
+          "      return (1 - self.qnoise_factor) * x + tf.stop_gradient(\n"
+          "          self.qnoise_factor * xq)\n\n"
+          "  def max(self):\n"
+          "    \"\"\"Get the maximum value that quantized_relu_po2 can "
+          "represent.\"\"\"\n"),
+        E("qkeras/quantizers.py",
+          "    self.use_ste = use_ste\n", 
+          "    self.use_ste = use_ste\n    self._ste_at_construction = use_ste\n",
+          matches=4, which=3)]),
     "m95_po2_operand_converted_in_place": dict(expect=["C17"], edits=[
         E(QO + "adder_factory.py",
           "    local_quantizer_1 = copy.deepcopy(quantizer_1)\n"
@@ -1132,6 +1182,17 @@ BENIGN = {
                                       edits=os.path.join(
         os.path.dirname(os.path.abspath(__file__)), "benign_patches",
         "b45_po2_max_value_setters.diff")),
+    # --- round 16 ---------------------------------------------------------
+    # benign twins of C17-seed16 / C04-seed16: the same memoisation with a
+    # COMPLETE key
+    "b66_adder_memo_with_complete_key": dict(props=["C17", "C18"],
+                                             edits=os.path.join(
+        os.path.dirname(os.path.abspath(__file__)), "benign_patches",
+        "b66_adder_memo_with_complete_key.diff")),
+    "b67_reduce_axes_memo_keyed_by_format": dict(props=["C04", "C05"],
+                                                 edits=os.path.join(
+        os.path.dirname(os.path.abspath(__file__)), "benign_patches",
+        "b67_reduce_axes_memo_keyed_by_format.diff")),
     # --- round 15 ---------------------------------------------------------
     "b61_foldable_classes_in_a_tuple": dict(props=["C15"], edits=[
         E("qkeras/utils.py",
